@@ -263,6 +263,8 @@ class SpawnProcess(multiprocessing.context.SpawnProcess):
         # Upon completion, `result_and_error` will contain `result` and `exception`
         # in this order; both may be `None`.
 
+        self._mpservice_exitcode_ = 0
+
         if not self._target:
             result_and_error.send(None)
             result_and_error.send(None)
@@ -294,8 +296,6 @@ class SpawnProcess(multiprocessing.context.SpawnProcess):
             logger_queue.close()
             logger_queue = None
             qh = None
-
-        self._mpservice_exitcode_ = 0
 
         try:
             z = self._target(*self._args, **self._kwargs)
